@@ -574,6 +574,10 @@ def run_case(case):
                 return ("inexact", str(e))
             return ("err", err_enum(e), f"{type(e).__name__}: {str(e)[:200]}")
         except Exception as e:
+            if "Choice and non-Choice in Or" in str(e):
+                # the harness built an ill-formed constraint: a value at an address and a (foreign) entry below it —
+                # possible when two switch branches use one address as a leaf and as a prefix; not a judged input
+                return ("inexact", "ill-formed constraint: " + str(e)[:120])
             return ("err", err_enum(e), f"{type(e).__name__}: {str(e)[:200]}")
 
     # 1. simulate
